@@ -167,7 +167,7 @@ func (column Column) Write(ctx context.Context, writer *buffer.Writer, format Fo
 	// not include itself). Can be zero. As a special case, -1 indicates a NULL
 	// column value. No value bytes follow in the NULL case.
 	length := int32(len(bb))
-	if src == nil {
+	if bb == nil {
 		length = -1
 	}
 
